@@ -49,6 +49,7 @@ pub enum TOp {
     RestoreRdr,
 }
 
+#[derive(Clone)]
 pub struct Msg {
     pub bytes: Vec<u8>,
     pub sym: Value, // symbolic wire
@@ -69,6 +70,8 @@ pub struct World {
     pub max_ctr: u32,
     pub emissions: Vec<Value>, // observed (role, iv) in order
     pub crafted: u64,
+    /// every byte-level output of the library calls made so far (for byte-for-byte comparisons)
+    pub raw: Vec<Vec<u8>>,
 }
 
 fn el(ns: &str, ids: &[&str]) -> BTreeMap<String, Vec<String>> {
@@ -144,6 +147,7 @@ impl World {
             max_ctr: 2,
             emissions: vec![],
             crafted: 0,
+            raw: vec![],
         };
         // The establishment already carried request #0 (reader counter 1) and the device decrypted it
         // (its receive counter is 1).  Model: ONewRequest 0 ; OHandleRequest <that message>.
@@ -151,6 +155,31 @@ impl World {
         let sym = w.abstract_emitted(&data, false, Some(0));
         w.requests.push(Msg { bytes: session_data(Some(&data), None), sym });
         w
+    }
+
+    /// an independent copy of the whole world (both session objects are Clone)
+    pub fn fork(&self) -> World {
+        World {
+            pki: Pki {
+                iaca_key: self.pki.iaca_key.clone(), iaca: self.pki.iaca.clone(), ds_key: self.pki.ds_key.clone(), ds: self.pki.ds.clone(),
+                reader_ca_key: self.pki.reader_ca_key.clone(), reader_ca: self.pki.reader_ca.clone(),
+                reader_key: self.pki.reader_key.clone(), reader: self.pki.reader.clone(),
+            },
+            device_keys: self.device_keys.clone(),
+            dev: self.dev.clone(),
+            rdr: self.rdr.clone(),
+            held: self.held.clone(),
+            requests: self.requests.clone(),
+            responses: self.responses.clone(),
+            foreign_req: self.foreign_req.clone(),
+            foreign_resp: self.foreign_resp.clone(),
+            req_specs: self.req_specs.clone(),
+            last_items: self.last_items.clone(),
+            max_ctr: self.max_ctr,
+            emissions: self.emissions.clone(),
+            crafted: self.crafted,
+            raw: self.raw.clone(),
+        }
     }
 
     pub fn prefix_ops(&self) -> Vec<Value> {
@@ -269,6 +298,7 @@ impl World {
                 let ns = namespaces_of(&self.req_specs[i]);
                 match catch(|| self.rdr.new_request(ns)) {
                     Ok(Ok(b)) => {
+                        self.raw.push(b.clone());
                         let data = data_of(&b).unwrap_or_default();
                         let sym = self.abstract_emitted(&data, false, Some(i as u64));
                         self.requests.push(Msg { bytes: b, sym: sym.clone() });
@@ -283,6 +313,7 @@ impl World {
                 let r = catch(|| self.dev.handle_request(&b));
                 let out = match r {
                     Ok(o) => {
+                        self.raw.push(serde_json::to_vec(&o).unwrap_or_default());
                         if o.errors.contains_key("parsing_errors") {
                             arr(vec![uint(1), uint(0)])
                         } else if o.errors.contains_key("decryption_errors") {
@@ -329,6 +360,8 @@ impl World {
                 let out = match r {
                     None => arr(vec![uint(3), Value::Null]),
                     Some((uuid, payload)) => {
+                        self.raw.push(uuid.as_bytes().to_vec());
+                        self.raw.push(payload.clone());
                         let by_payload = doc_type_of_payload(&payload).map(|t| self.docid(&t)).unwrap_or(98);
                         let by_uuid = self.docid_of_uuid(&uuid);
                         // the offered id and the offered payload must name the same document
@@ -358,12 +391,12 @@ impl World {
                 };
                 (arr(vec![uint(4), bytes(&sig)]), out)
             }
-            TOp::Ready => (arr(vec![uint(5)]), arr(vec![uint(4), Value::Bool(self.dev.response_ready())])),
+            TOp::Ready => { self.raw.push(vec![self.dev.response_ready() as u8]); (arr(vec![uint(5)]), arr(vec![uint(4), Value::Bool(self.dev.response_ready())])) }
             TOp::Retrieve => {
                 let r = catch(|| self.dev.retrieve_response());
                 let out = match r {
                     Ok(None) => arr(vec![uint(5), Value::Null]),
-                    Ok(Some(b)) => match self.responses.iter().find(|m| m.bytes == b) {
+                    Ok(Some(b)) => match { self.raw.push(b.clone()); self.responses.iter().find(|m| m.bytes == b) } {
                         Some(m) => arr(vec![uint(5), m.sym.clone()]),
                         None => arr(vec![uint(5), text("unknown message")]),
                     },
@@ -376,6 +409,7 @@ impl World {
                 let before = rdr_view(&self.rdr).device_ctr;
                 let r = catch(|| self.rdr.handle_response(&b));
                 let after = rdr_view(&self.rdr).device_ctr;
+                if let Ok(o) = &r { self.raw.push(serde_json::to_vec(o).unwrap_or_default()); }
                 let out = match r {
                     Ok(o) => match o.errors.get("decryption_errors").map(|v| v.to_string()) {
                         Some(e) if e.contains("HolderError") => arr(vec![uint(2), uint(1)]),
